@@ -183,6 +183,39 @@ pub struct Ctx {
     pub extra: BTreeMap<String, u64>,
     /// free-form sets merged by union (distinct abstract states etc.)
     pub sets: BTreeMap<String, HashSet<u64>>,
+    /// sampling mode (sanitizer stages): cases are not executed but reservoir-sampled, stratified by
+    /// sub-monitor, so that a uniform sample of the workload can be replayed under an interpreter
+    pub dump: Option<Dump>,
+}
+
+pub struct Dump {
+    pub per_mon: usize,
+    pub max_bytes: usize,
+    pub seen: BTreeMap<String, u64>,
+    pub kept: BTreeMap<String, Vec<Case>>,
+    pub rng: Rng,
+}
+
+impl Dump {
+    pub fn new(per_mon: usize, max_bytes: usize, rng: Rng) -> Self {
+        Dump { per_mon, max_bytes, seen: BTreeMap::new(), kept: BTreeMap::new(), rng }
+    }
+    fn offer(&mut self, case: Case) {
+        if case.a.iter().map(|x| x.len()).sum::<usize>() > self.max_bytes {
+            return;
+        }
+        let seen = self.seen.entry(case.mon.clone()).or_insert(0);
+        *seen += 1;
+        let kept = self.kept.entry(case.mon.clone()).or_default();
+        if kept.len() < self.per_mon {
+            kept.push(case);
+        } else {
+            let k = (self.rng.next() % *seen) as usize;
+            if k < self.per_mon {
+                kept[k] = case;
+            }
+        }
+    }
 }
 
 impl Ctx {
@@ -212,6 +245,7 @@ impl Ctx {
             panics_caught: 0,
             extra: BTreeMap::new(),
             sets: BTreeMap::new(),
+            dump: None,
         }
     }
 
@@ -247,6 +281,13 @@ impl Ctx {
 
     /// Execute one replayable case through the property's `exec` function.
     pub fn run(&mut self, case: Case) {
+        if let Some(d) = self.dump.as_mut() {
+            self.evals += 1;
+            if !matches!(case.mon.as_str(), "enum" | "exh" | "all-masks" | "sweep-char" | "sweep-byte") {
+                d.offer(case);
+            }
+            return;
+        }
         if let Some(f) = self.trace.as_mut() {
             let s = case.to_json().to_string();
             let _ = f.set_len(0);
